@@ -21,7 +21,7 @@ class C03(common.Prop):
     RULE = ("v0.2 files with frame payloads from 8 B to ~4 KB and total size on both sides of the 10 340-byte prefetch; each case is a "
             "history: optional memo-priming read (none / same file / other file), then one windowed read (frame or time bounds, bytes or "
             "stream); windows are drawn per class relative to the prefetch boundary (inside / straddling / beyond) plus conflicts and "
-            "start >= total; non-trivial = window is a proper sub-range or the read must be rejected; distinct by content hash")
+            "start >= total; non-trivial = window is a proper sub-range or the read must be rejected; distinct by content hash " "Window bounds arrive as Python ints or NumPy integer scalars (int8..int64, only types that hold the file's frame count).")
     TRUSTED = ["Coq 8.16.1 kernel", "harness/translate_py.py", "extraction: ExtrOcamlBasic only; runner/driver.ml",
                "harness/posegen.py canonicalisers; counting stream wrapper"]
     ASSUMPTIONS = ["io.BytesIO.read/seek/tell behave as the list model of a seekable stream (base/Prog.v read_chunk)",
